@@ -24,6 +24,9 @@ CHECKS = {
  "C14": ("model_checking", "explicit-state BFS over operation sequences, each transition executed by the real derivation method on a reflection-populated project; invariants (receiver unchanged, no shared mutable state, footprint) checked in every transition",
          "Initial states: a project in which reflection made every field of every model type non-zero (so new fields are covered automatically) and two loaded corpus projects. Transitions: 40 operation x argument combinations (profiles, enable, disable, select x 3 policies, prune, images, environment, labels, transform with a mutating callback, ForEachService with a mutating visitor, YAML/JSON rendering with and without secret content). BFS to depth 2 (3 thorough, each transition also under 8 map-iteration rotations) with canonical state hashing. Oracles per transition: receiver reflect.DeepEqual to a reflective snapshot; no map, slice backing array or pointer reachable from both result and receiver (Extensions payloads exempt); every top-level field outside the operation's footprint equal.",
          "Trusted: reflection walkers in props/reflectutil.go. Aliasing through unexported state of third-party types is not inspected.", "§4 C14", "E3 E5"),
+ "C15": ("model_checking", "explicit-state BFS over selection-operation sequences from every small project, each transition executed by the real method and checked against a set-based reference relation; repeated under map-iteration rotations",
+         "Initial states: every project on <=3 services with profile sets over {p,q} and every DAG with absent/required/optional edges (1780 projects), with networks/volumes/secrets/build secrets/configs referenced by subsets of services. Transitions: 8 WithProfiles arguments, WithServicesEnabled/Disabled over empty/singletons/pairs of names+unknown, WithSelectedServices likewise x 3 policies, pruning (62-ish per state). BFS to depth 3 (2 for 3 services; 5/3 thorough), canonical state = partition + depends_on + profile set + resource names. Every transition: partition invariants, the operation's reference relation (Appendix A.3), and deep-equal results under the map-iteration rotations.",
+         "Trusted: the reference relation in props/c15.go. Initial states are profile-consistent (profile-bearing services start disabled, as after a load).", "§4 C15, App. A.3", "E2 E3 E5"),
 }
 
 NOT_YET = {}
